@@ -35,7 +35,8 @@ func (l Logistic) ExKurtosis() float64 {
 // LogProb computes the natural logarithm of the value of the probability
 // density function at x.
 func (l Logistic) LogProb(x float64) float64 {
-	return x - 2*math.Log(math.Exp(x)+1)
+	z := -math.Abs(x-l.Mu) / l.S
+	return z - math.Log(l.S) - 2*math.Log1p(math.Exp(z))
 }
 
 // Mean returns the mean of the probability distribution.
@@ -66,7 +67,7 @@ func (l Logistic) NumParameters() int {
 
 // Prob computes the value of the probability density function at x.
 func (l Logistic) Prob(x float64) float64 {
-	E := math.Exp(-(x - l.Mu) / l.S)
+	E := math.Exp(-math.Abs(x-l.Mu) / l.S)
 	return E / (l.S * math.Pow(1+E, 2))
 }
 
